@@ -82,6 +82,12 @@ where
         return Err(());
     }
 
+    // Reject negative entries up front (NaN entries are rejected via the `normalization`
+    // below). Checking them only while distributing the weights could overflow first.
+    if probabilities.iter().any(|&probability| probability < F::zero()) {
+        return Err(());
+    }
+
     // Start by assigning each symbol weight 1 and then distributing at most the
     // remaining weight approximately proportionally to the symbol probabilities.
     let mut remaining_free_weight =
@@ -96,9 +102,6 @@ where
         .iter()
         .enumerate()
         .map(|(original_index, &prob)| {
-            if prob < F::zero() {
-                return Err(());
-            }
             let prob: f64 = prob.into();
             let current_free_weight = (prob * scale).as_();
             remaining_free_weight = remaining_free_weight - current_free_weight;
